@@ -25,6 +25,15 @@ search : float64 closed forms (atan2 form cross-checked with haversine),
          power-of-two rescaling), histories on one object, geometry_corrected,
          area-weighted distance measures, the cosine-error hypotheses of theorem
          angular_entry_error_combined measured on every run
+round 3: Lean theorems rcos_core / angular_entry_error_rounded (rounded angular kernel);
+         their elementary hypotheses (table error delta, radian error eps) measured and
+         the conclusion of rcos_core checked exactly in Fractions on every stored entry;
+         Model/GeoHist.lean (area-weighted histograms, neighbour AWC, distance
+         histograms) in exact correspondence with geographical_(cumulative_)distribution,
+         (average|max)_neighbor_area_weighted_connectivity,
+         geometric_distance_distribution, link_distance_distribution; oracles for the
+         wrappers, region_indices (exact crossing number) and network-level histories
+         that must leave the grid's cached distance matrices untouched (seeded C12-3)
 """
 import contextlib
 import io
@@ -350,13 +359,23 @@ def run(ctx):
         "rescaled by 2^-10..2^30, lookups by 2^-20..2^40; 2-5 step histories on one grid / network "
         "object; adjacency random / empty / isolated node / complete; geometry_corrected both ways; "
         "longitudes k/4 in [-400, 800] for convert_lon_coordinates with sequences shorter / longer "
-        "than the grid")
+        "than the grid; round 3: sequences dyadic / constant / degree / AWC / random floats with 1-8 "
+        "bins for the area-weighted histograms; adjacency random / isolated node / complete / empty; "
+        "distance histograms with 1-8 (and 0) bins on geo and Euclidean grids of 1-12 nodes, "
+        "grid_type euclidean / spherical, geometry_corrected both ways; polygons with 3-5 vertices in "
+        "both orientations passed as float64 / float32 / list / read-only arrays on grids with and "
+        "without negative longitudes; 2-6 step histories of 21 public network measures on two "
+        "networks sharing one grid")
     ctx.trusted = common.DEFAULT_TRUSTED + [
         "IEEE-754: float32 arithmetic on the dyadic kernel inputs is exact (all intermediate "
         "values have < 24 significant bits) — the reason the Rat model can be compared exactly",
         "angular accuracy: proved from a bound eta on the float32 evaluation error of the cosine "
-        "(theorems angular_entry_*); eta itself is sampled (cosine_error_observed), as are the angle "
-        "errors (2^-10 abs, 2^-17 rel on [0.25, pi-0.25]) (partial)",
+        "(theorems angular_entry_*); round 3 proves eta under the standard model of float32 "
+        "arithmetic for the kernel from the table error delta and the radian error eps "
+        "(angular_entry_error_rounded: 3*2^-11 for delta <= 3*2^-25, 2^-10 for delta <= 2^-25); delta "
+        "and eps are measured (table_error_observed), the standard model is checked exactly on every "
+        "sampled entry (oracle kernel-rounding); the property's 2^-10 abs / 2^-17 rel on "
+        "[0.25, pi-0.25] themselves are sampled (partial)",
         "Euclidean accuracy 2^-20: proved under the standard model of floating point arithmetic "
         "(|rnd v - v| <= 2^-24 |v| per operation, powf within 1 ulp, no overflow / underflow, <= 6 "
         "dimensions: theorem euclidean_entry_accuracy_float32); that the hardware satisfies the "
@@ -2094,6 +2113,7 @@ def suite_net_history(ctx, Grid, GeoGrid, GeoNetwork, SpatialNetwork, rng, ncase
                          f"matrix it returned before (the cached array was edited in place); "
                          f"clauses now violated: {[v[0] for v in viol]}",
                          dict(desc, adjacency=A.tolist(), directed=directed, history=done,
+                              steps=[[a, b] for a, b, _ in steps[:len(done)]],
                               before=D0.astype(float).tolist(), after=D1.astype(float).tolist()))
                 break
 
@@ -2173,6 +2193,31 @@ def replay(ctx, rp):
                     or (0 <= a <= 360 and not (-180 < b <= 180)):
                 ctx.fail(sig, f"GeoGrid.convert_lon_coordinates: longitude {a} converted to {b}",
                          dict(r, observed=got))
+                break
+    elif kind == "history" and "steps" in r:
+        from pyunicorn.core.geo_network import GeoNetwork
+        from pyunicorn.core.spatial_network import SpatialNetwork
+        if "lat" in r:
+            g = GeoGrid(np.arange(2), np.array(r["lat"]), np.array(r["lon"]), silence_level=3)
+            net = GeoNetwork(g, adjacency=np.array(r["adjacency"]), directed=r["directed"],
+                             silence_level=3)
+        else:
+            X = np.array(r["space_seq"], dtype=np.float64)
+            g = Grid(np.arange(2), X.reshape(len(r["space_seq"]), -1), silence_level=3)
+            net = SpatialNetwork(g, adjacency=np.array(r["adjacency"]), directed=r["directed"],
+                                 silence_level=3)
+        D0 = np.array(g.distance()).copy()
+        for nm, kw in r["steps"]:
+            try:
+                with np.errstate(all="ignore"), contextlib.redirect_stdout(io.StringIO()):
+                    getattr(net, nm)(**kw)
+            except (ZeroDivisionError, ValueError):
+                pass
+            D1 = np.array(g.distance())
+            if not np.array_equal(D1, D0, equal_nan=True):
+                ctx.fail(sig, f"after {nm}({kw}) the grid's distance() is no longer the matrix it "
+                         "returned before (the cached array was edited in place)",
+                         dict(r, after=D1.astype(float).tolist()))
                 break
     else:
         print(f"[C12] no replay routine for signature {sig}; run ./check C12 with the same "
